@@ -464,6 +464,39 @@ pub fn c15(thorough: bool, replay: Option<String>) -> i32 {
     rep.traces += st.evaluations;
     rep.add_sub(if pass == 0 { "token-sequences" } else { "token-sequences-extended" }, &format!("every sequence of 1..{} (token, separator) units over {} tokens {:?} and separators {:?}", kt, tokens.len(), tokens, seps), total, true, capped, st);
     }
+    // dotted forms: ( item [item] sep . sep tail sep ) with every token kind as the tail and every separator
+    // around the dot and before the closing parenthesis, alone and nested in a list
+    {
+        let items: Vec<&str> = vec!["abc", "-12", "0x1f", "\"s t\"", "'q'", "#c", "(x y)", "()", "x"];
+        let tails: Vec<&str> = vec!["rest", "r", "-12", "12345678901234567890", "0x1f", "\"s t\"", "'q\\'x'", "#c", "#zz", "(x y)", "(x . yy)", "()", "caf\u{e9}"];
+        let seps: Vec<&str> = vec![" ", "\n", " ;c\n  ", "  "];
+        let closes: Vec<&str> = vec!["", " ", "\n"];
+        let mut texts: Vec<String> = vec![];
+        for i1 in &items {
+            for two in [false, true] {
+                for t in &tails {
+                    for s1 in &seps {
+                        for s2 in &seps {
+                            for c in &closes {
+                                let head = if two { format!("{} {}", i1, items[(texts.len() + 1) % items.len()]) } else { i1.to_string() };
+                                let core = format!("({}{}.{}{}{})", head, s1, s2, t, c);
+                                texts.push(core.clone());
+                                if thorough {
+                                    texts.push(format!("(mod {} (f a))", core));
+                                }
+                            }
+                        }
+                    }
+                }
+            }
+        }
+        let total = texts.len() as u64;
+        let (st, capped) = par_range(total, 256, cap, || (), |_, st, i| check_text(st, texts[i as usize].as_bytes(), "dotted"));
+        rep.states += st.evaluations;
+        rep.transitions += st.counters.get("push-calls").copied().unwrap_or(0);
+        rep.traces += st.evaluations;
+        rep.add_sub("dotted-forms", &format!("( item [item] sep . sep tail close ) for 9 items x 13 tails (barewords of 1 and several characters, numbers, hex, both quote styles, #-tokens, lists, a dotted list, nil, a non-ASCII word) x 4 x 4 separators around the dot x 3 spacings before the closing parenthesis{}", if thorough { ", alone and as a parameter list" } else { "" }), total, true, capped, st);
+    }
     rep.finish()
 }
 
